@@ -564,9 +564,10 @@ class Project:
 
         """
         try:
-            for d in os.listdir(self.workspace):
-                if JOB_ID_REGEX.fullmatch(d):
-                    yield d
+            with os.scandir(self.workspace) as entries:
+                for entry in entries:
+                    if JOB_ID_REGEX.fullmatch(entry.name) and entry.is_dir():
+                        yield entry.name
         except OSError as error:
             if error.errno == errno.ENOENT:
                 if os.path.islink(self.workspace):
@@ -613,7 +614,7 @@ class Project:
         # Performance-critical path. We can rely on the project workspace and
         # job id to be well-formed, so just use str.join with os.sep instead of
         # os.path.join for speed.
-        return os.path.exists(os.sep.join((self.workspace, job_id)))
+        return os.path.isdir(os.sep.join((self.workspace, job_id)))
 
     def __contains__(self, job):
         """Determine whether a job is in the project's data space.
